@@ -45,6 +45,7 @@ type Engine struct {
 	requireAll bool
 	interior   *interiorInfo
 	constGlobals map[*ssa.Global]*ssa.Const
+	localTypes   map[string]map[string]string // unit key -> local named by its contract -> type (baseline)
 }
 
 func identOf(dr *ssa.DebugRef) string {
@@ -96,6 +97,7 @@ func LoadEngine(patterns []string) (*Engine, error) {
 	}
 	eng.scanInterior()
 	eng.scanConstGlobals()
+	eng.localTypes = loadLocalTypes()
 	// contracts: externals first, then per-package files from /repo (mirror as fallback)
 	if err := eng.specs.LoadSpecFile("/verif/contracts/externals.vspec", ""); err != nil {
 		return nil, err
